@@ -50,9 +50,9 @@ func genC19(rt *rapid.T) *Request {
 		case "v6br":
 			p.Hostname = "[2001:db8:ffff::1]"
 		case "v4port":
-			p.Hostname = fmt.Sprintf("93.184.216.34:%d", oneOf(rt, "hostport", 1, 8080, 65535))
+			p.Hostname = fmt.Sprintf("93.184.216.34:%d", oneOf(rt, "hostport", 0, 1, 8080, 65535, 65536, 70000))
 		case "v6brport":
-			p.Hostname = fmt.Sprintf("[2001:db8:ffff::1]:%d", oneOf(rt, "hostport6", 1, 8080, 65535))
+			p.Hostname = fmt.Sprintf("[2001:db8:ffff::1]:%d", oneOf(rt, "hostport6", 0, 1, 8080, 65535, 65536, 131152))
 		}
 	}
 	rq.Scripts = []FlowScript{{Default: HopSpec{Silent: true}}}
